@@ -307,6 +307,12 @@ func (c *Context) HandleEnvelop(envelop vivid.Envelop) {
 	currentState := atomic.LoadInt32(&c.state)
 	killingOrKilled := (currentState == killed) || (!envelop.System() && currentState != running) // 是否处于停止中或死亡状态
 	if killingOrKilled && !c.zombie {                                                             // 是否处于僵尸状态
+		if _, isKill := envelop.Message().(*vivid.OnKill); isKill && currentState == killing {
+			// 毒杀指令以用户消息投递：终止流程已在进行时它无需进入死信；
+			// 若该流程是重启，则与 onKill 一致地放弃重启，否则 Actor 重启后继续存活，而下达指令的（正在终止的）父级将永远等不到它的终止
+			c.restarting = nil
+			return
+		}
 		if c.parent == nil {
 			// 根 Actor 是死信的最终归宿，其停止（中）后已无处可投；
 			// 若仍包装为死信投递给自身，每条死信会再次产生一条发给自身的死信，形成永不停止的循环，因此直接丢弃
